@@ -138,7 +138,7 @@ def _observe(case, G=None, extra_kw=None):
         obs["solved"] = bool(m.is_solved())
         if obs["solved"]:
             obs["phase"] = "get_solution"
-            obs["sol"] = m.get_solution()
+            obs["sol"] = m.get_solution(**(case.get("get_solution_kw") or {}))
             obs["phase"] = "get_objective_value"
             obs["obj"] = m.get_objective_value()
         obs["phase"] = "done"
